@@ -190,13 +190,14 @@ def normalise_rendered(num: str, family: str) -> str:
     s = num
     if family == "H":
         s = s.replace("&plusmn;", "+/-")
-        s = re.sub(r"×10<sup>(-?\d+)</sup>", r"e\1", s)
+        # the markup must END the number: '×10<sup>10</sup>0' is 10^10 followed by a stray digit, not 10^100
+        s = re.sub(r"×10<sup>(-?\d+)</sup>(?![\d.])", r"e\1", s)
     elif family == "P":
         s = s.replace("±", "+/-")
-        s = re.sub(r"×10([⁰¹²³⁴⁵⁶⁷⁸⁹⁻⁺]+)", lambda m: "e" + m.group(1).translate(_SUP), s)
+        s = re.sub(r"×10([⁰¹²³⁴⁵⁶⁷⁸⁹⁻⁺]+)(?![\d.])", lambda m: "e" + m.group(1).translate(_SUP), s)
     elif family == "L":
         s = s.replace(r"\left", "").replace(r"\right", "").replace(r"\pm", "+/-")
-        s = re.sub(r"\\times 10\^\{(-?\d+)\}", r"e\1", s)
+        s = re.sub(r"\\times 10\^\{(-?\d+)\}(?![\d.])", r"e\1", s)
         s = s.replace(r"\%", "%")
     elif family == "Lx":
         s = s.replace("+-", "+/-")
